@@ -70,6 +70,20 @@ def run(facts, tier):
     return res
 
 
+def summary_rule(facts, res, rule="R07-1"):
+    """Node-sets answered by a query are sorted by the order key and free of duplicates (typestate fixpoint of C07)."""
+    it, fns, rounds = solve(facts)
+    s = it.summary(facts.fn("xml_xpath::eval::document")["id"])
+    res.rule(rule, instances=2)
+    for idx, prop in ((0, "sorted"), (1, "dedup")):
+        ok = s[idx] and not s[2 + idx]
+        res.oblige(1, ok)
+        if not ok:
+            who = blame(facts, it, idx)
+            res.add(Finding(rule, "document|" + prop, "node-sets returned by query are not guaranteed to be %s (by their order key)%s"
+                            % (prop, (": " + who) if who else ""), None, None, {}))
+
+
 def blame(facts, it, idx):
     """The function whose own body loses the property even when every callee is assumed to keep it."""
     saved = dict(it.summ)
